@@ -61,7 +61,10 @@ def judge(ctx, case, o, guilty, stats, recheck):
     invalid = set(case["invalid"])
     unf_ok = o["unfiltered"].get("ok") is True
     refs = case["refs"]
-    if unf_ok and (o["unfiltered"].get("diff_in") or o["unfiltered"].get("dangling")):
+    split = case.get("split") is True
+    # the split flow drops the dwo attributes of the root by design
+    nonroot = lambda d: [n for n in (d or []) if not (split and n.startswith("root"))]
+    if unf_ok and (nonroot(o["unfiltered"].get("diff_in")) or o["unfiltered"].get("dangling")):
         ctx.drift.append({"what": "unfiltered conversion does not reproduce the input forest (C12 territory)",
                           "entries": o["unfiltered"].get("diff_in"), "case": case["id"]})
     if len(o["runs"]) != len(case["exp"]):
@@ -133,7 +136,7 @@ def judge(ctx, case, o, guilty, stats, recheck):
             ctx.violation("filter:attrs-differ",
                           "retained entries %s differ (tag, parent or attribute list) from the unfiltered conversion"
                           % run["diff_unf"], sub, run)
-        elif run.get("diff_in") and not unf_ok:
+        elif nonroot(run.get("diff_in")) and not unf_ok:
             ctx.drift.append({"what": "retained entries differ from the input forest", "entries": run["diff_in"], "case": case["id"]})
         if S == must:
             stats["exact"] += 1
@@ -231,9 +234,9 @@ def run(ctx):
     if q:
         runs = [dict(MaxN=4, MaxUnits=2, MaxEdges=2, MaxEdgesBig=1, Salt=ctx.seed % 97, EmitMod=2, CheckSplit="FALSE", KindN=2, FewSubsets="TRUE", RootN=2)]
     else:
-        runs = [dict(MaxN=4, MaxUnits=2, MaxEdges=3, MaxEdgesBig=2, Salt=0, EmitMod=5, CheckSplit="TRUE", KindN=3, FewSubsets="FALSE", RootN=3)] + \
-               [dict(MaxN=3, MaxUnits=2, MaxEdges=3, MaxEdgesBig=3, Salt=s, EmitMod=2, CheckSplit="FALSE", KindN=0, FewSubsets="FALSE", RootN=3) for s in (1, 2, 3)] + \
-               [dict(MaxN=5, MaxUnits=2, MaxEdges=1, MaxEdgesBig=1, Salt=7, EmitMod=3, CheckSplit="FALSE", KindN=0, FewSubsets="FALSE", RootN=0)]
+        runs = [dict(MaxN=4, MaxUnits=2, MaxEdges=3, MaxEdgesBig=2, Salt=0, EmitMod=7, CheckSplit="FALSE", KindN=2, FewSubsets="FALSE", RootN=2),
+                dict(MaxN=3, MaxUnits=2, MaxEdges=3, MaxEdgesBig=3, Salt=1, EmitMod=3, CheckSplit="TRUE", KindN=3, FewSubsets="FALSE", RootN=3),
+                dict(MaxN=5, MaxUnits=1, MaxEdges=1, MaxEdgesBig=1, Salt=7, EmitMod=3, CheckSplit="FALSE", KindN=0, FewSubsets="FALSE", RootN=0)]
     stats = {"runs": 0, "exact": 0, "expected_err": 0}
     decisive, dtags = set(), set()
     allk = set()
@@ -248,6 +251,10 @@ def run(ctx):
             c.update(id="%d.%d" % (ri, i), version=v, format=f, asz=a, flow=FLOWS[(i // 3) % 3], be=(i % 5 == 0))
             cases.append(c)
             decisive.update(c["decisive"]); dtags.update(c["dtags"])
+            # single-unit graphs are also converted as a split unit through a skeleton unit
+            # (FilterUnitSection::new_split -> ConvertUnit::convert_split_with_filter)
+            if c["nunits"] == 1 and i % 2 == 0:
+                cases.append(dict(c, id=c["id"] + "s", split=True))
         path = os.path.join(ctx.work, "filter-%d-replay.ndjson" % ri)
         write_ndjson(path, cases)
         for prof, binp in bins:
@@ -300,6 +307,7 @@ def run(ctx):
         "an output strictly between the closure and the set connected to the required entries is accepted if closed (recorded as drift)",
         "inputs with an invalid reference: an error is required when the holder is in the closure; elsewhere ok/err both accepted (drift)",
         "DW_TAG_base_type entries are not placed directly under a root in generated inputs (the writer that builds the input would reorder them)",
+        "split-unit filters: every second single-unit graph is additionally converted through a DWARF 4 style skeleton unit (GNU dwo id); the split sections are loaded with the default file type",
         "concrete tags / reference kinds are rotated over the spec's tables rather than multiplied into the state space; evidence lists kinds that never decided a result",
     ]
     ctx.finish("model_checking",
